@@ -1,0 +1,145 @@
+//go:build verif
+
+package geom
+
+import (
+	"math"
+	"sort"
+	"strconv"
+	"strings"
+)
+
+// VerifRelateOverlay builds the overlay of g (operand A) and other (operand
+// B) exactly as Relate does for two non-empty operands, and exports
+// everything extractIntersectionMatrix reads from it, together with the
+// matrix extracted from that very overlay (build tag verif only). The vertex
+// and half edge records extend those of VerifOverlay by the location flags.
+//
+// Format (space separated tokens; floats are the 16 hex digits of their
+// IEEE-754 bits; booleans are 0 or 1; ids are indexes into the respective
+// list):
+//
+//	dump    := "V" nV vertex* "E" nE halfedge* "F" nF face* "M" matrix
+//	vertex  := x y srcA srcB inSetA inSetB interiorA boundaryA interiorB boundaryB
+//	halfedge:= origin twin next prev face srcEdgeA srcEdgeB srcFaceA srcFaceB inSetA inSetB nPts (x y)*
+//	face    := cycle inSetA inSetB       (cycle: a half edge id, or -1 for the artificial face)
+//
+// Vertices are ordered by (x, y), half edges by their first two points, faces
+// in the order they were created.
+func (g Geometry) VerifRelateOverlay(other Geometry) string {
+	d := newDCELFromGeometries(g, other)
+
+	verts := make([]*vertexRecord, 0, len(d.vertices))
+	for _, v := range d.vertices {
+		verts = append(verts, v)
+	}
+	sort.Slice(verts, func(i, j int) bool { return verts[i].coords.Less(verts[j].coords) })
+	vertID := make(map[*vertexRecord]int, len(verts))
+	for i, v := range verts {
+		vertID[v] = i
+	}
+
+	type keyed struct {
+		key [2]XY
+		e   *halfEdgeRecord
+	}
+	edges := make([]keyed, 0, len(d.halfEdges))
+	for k, e := range d.halfEdges {
+		edges = append(edges, keyed{k, e})
+	}
+	sort.Slice(edges, func(i, j int) bool {
+		a, b := edges[i].key, edges[j].key
+		if a[0] != b[0] {
+			return a[0].Less(b[0])
+		}
+		return a[1].Less(b[1])
+	})
+	edgeID := make(map[*halfEdgeRecord]int, len(edges))
+	for i, ke := range edges {
+		edgeID[ke.e] = i
+	}
+	faceID := make(map[*faceRecord]int, len(d.faces))
+	for i, f := range d.faces {
+		faceID[f] = i
+	}
+
+	var sb strings.Builder
+	num := func(i int) {
+		sb.WriteByte(' ')
+		sb.WriteString(strconv.Itoa(i))
+	}
+	flt := func(f float64) {
+		sb.WriteByte(' ')
+		s := strconv.FormatUint(math.Float64bits(f), 16)
+		sb.WriteString(strings.Repeat("0", 16-len(s)))
+		sb.WriteString(s)
+	}
+	bit := func(b bool) {
+		if b {
+			sb.WriteString(" 1")
+		} else {
+			sb.WriteString(" 0")
+		}
+	}
+	id := func(i int, ok bool) {
+		if !ok {
+			i = -1
+		}
+		num(i)
+	}
+
+	sb.WriteString("V")
+	num(len(verts))
+	for _, v := range verts {
+		flt(v.coords.X)
+		flt(v.coords.Y)
+		bit(v.src[0])
+		bit(v.src[1])
+		bit(v.inSet[0])
+		bit(v.inSet[1])
+		bit(v.locations[0].interior)
+		bit(v.locations[0].boundary)
+		bit(v.locations[1].interior)
+		bit(v.locations[1].boundary)
+	}
+	sb.WriteString(" E")
+	num(len(edges))
+	for _, ke := range edges {
+		e := ke.e
+		i, ok := vertID[e.origin]
+		id(i, ok)
+		i, ok = edgeID[e.twin]
+		id(i, ok)
+		i, ok = edgeID[e.next]
+		id(i, ok)
+		i, ok = edgeID[e.prev]
+		id(i, ok)
+		i, ok = faceID[e.incident]
+		id(i, ok)
+		bit(e.srcEdge[0])
+		bit(e.srcEdge[1])
+		bit(e.srcFace[0])
+		bit(e.srcFace[1])
+		bit(e.inSet[0])
+		bit(e.inSet[1])
+		n := e.seq.Length()
+		num(n)
+		for j := 0; j < n; j++ {
+			xy := e.seq.GetXY(j)
+			flt(xy.X)
+			flt(xy.Y)
+		}
+	}
+	sb.WriteString(" F")
+	num(len(d.faces))
+	for _, f := range d.faces {
+		i, ok := edgeID[f.cycle]
+		id(i, ok && f.cycle != nil)
+		bit(f.inSet[0])
+		bit(f.inSet[1])
+	}
+	sb.WriteString(" M ")
+	im := d.extractIntersectionMatrix()
+	sb.WriteString(im.code())
+	return sb.String()
+}
